@@ -84,6 +84,8 @@ func parseLimited(grammar, entry, text string, limit int) (tree string, ok bool,
 		}
 		return gtListString(ProjectQuery(doc)), true, "", ""
 	}
+	// every other schema source is a built-in one: the marks are part of the tree that must be identical
+	src.BuiltIn = len(text)%2 == 1
 	var doc *ast.SchemaDocument
 	var err error
 	switch {
@@ -97,7 +99,21 @@ func parseLimited(grammar, entry, text string, limit int) (tree string, ok bool,
 	if err != nil {
 		return "", false, err.Error(), ""
 	}
-	return gtListString(ProjectSchemaDoc(doc)), true, "", ""
+	return gtListString(ProjectSchemaDoc(doc)) + builtInMarks(doc), true, "", ""
+}
+
+// builtInMarks: which definitions and extensions of the document are marked built-in
+func builtInMarks(d *ast.SchemaDocument) string {
+	var b strings.Builder
+	b.WriteString(" builtin:")
+	for _, x := range d.Definitions {
+		fmt.Fprintf(&b, " %s=%v", x.Name, x.BuiltIn)
+	}
+	b.WriteString(" /")
+	for _, x := range d.Extensions {
+		fmt.Fprintf(&b, " %s=%v", x.Name, x.BuiltIn)
+	}
+	return b.String()
 }
 
 func countTokens(text string) (int, bool) {
@@ -408,7 +424,7 @@ func checkC16(c *core.Ctx) {
 		var cp [][]int
 		maxN, sum := 0, 0
 		for i, t := range texts {
-			srcs = append(srcs, &ast.Source{Name: fmt.Sprintf("m%d.graphql", i), Input: t})
+			srcs = append(srcs, &ast.Source{Name: fmt.Sprintf("m%d.graphql", i), Input: t, BuiltIn: (i+len(texts[0]))%2 == 0})
 			cp = append(cp, cps(t))
 			n, _ := countTokens(t)
 			sum += n
@@ -419,7 +435,7 @@ func checkC16(c *core.Ctx) {
 		d0, err0 := parser.ParseSchemas(srcs...)
 		tree0 := ""
 		if err0 == nil {
-			tree0 = gtListString(ProjectSchemaDoc(d0))
+			tree0 = gtListString(ProjectSchemaDoc(d0)) + builtInMarks(d0)
 		}
 		for _, limit := range []int{0, 1, maxN - 1, maxN, maxN + 1, sum - 1, sum, sum + 1} {
 			if limit < 0 {
@@ -439,7 +455,7 @@ func checkC16(c *core.Ctx) {
 					return
 				}
 				lc.OK = true
-				lc.Tree = gtListString(ProjectSchemaDoc(d))
+				lc.Tree = gtListString(ProjectSchemaDoc(d)) + builtInMarks(d)
 			})
 			if crash != "" {
 				c.Violation(fmt.Sprintf("ParseSchemasWithLimit(%d, %d sources): %s", limit, len(srcs), crash), map[string]any{"texts": texts, "limit": limit, "crash": crash})
